@@ -57,7 +57,8 @@ def _send_frame_paths(ctx):
     def body(run):
         ws = mk_websocket(I, run)
         run.assume_range(App("len", (Sym("wire", "bytes"),), "int"), 2, INF)
-        fr = new_obj(run, "_abnf:ABNF", "frame", get_mask_key=Ext("os.urandom"))
+        fr = new_obj(run, "_abnf:ABNF", "frame", get_mask_key=Ext("os.urandom"), fin=isym(run, "fin", 0, 1), opcode=isym(run, "opcode", 0, 15),
+                     rsv1=C(0), rsv2=C(0), rsv3=C(0), mask_value=C(1), data=Sym("payload", "bytes"))  # any frame: data and control opcodes alike
         return I.call(run, I.getattr(run, ws, "send_frame", None), [fr], {}, None)
 
     outs = ctx.count_paths(I.explore(body))
@@ -397,20 +398,27 @@ def r8(ctx):
             run.memo["@thread"] = "B"
             run.memo["@in_preempt"] = True
             try:
-                fr = new_obj(run, "_abnf:ABNF", "frameB", get_mask_key=Ext("os.urandom"))
+                fr = new_obj(run, "_abnf:ABNF", "frameB", get_mask_key=Ext("os.urandom"), fin=C(1), opcode=C(9), rsv1=C(0), rsv2=C(0), rsv3=C(0),
+                             mask_value=C(1), data=Sym("payloadB", "bytes"))  # the other thread sends a control frame (ping / automatic pong)
                 run.assume_range(App("len", (Sym("wireB", "bytes"),), "int"), 2, INF)
                 I.call(run, I.getattr(run, wsr, "send_frame", None), [fr], {}, st)
             finally:
                 run.memo["@thread"] = prev
                 run.memo["@in_preempt"] = False
 
-        lock = run.cell(wsr).fields.get("lock")
-        real = isinstance(lock, Sym) and lock.name.startswith("Lock#")
-        if real and lock.key() in run.held:
-            run.effect("--thread B blocks on the send lock")
-            run.deferred.setdefault(lock.key(), []).append(other)
-        else:
+        # thread B runs now, up to the point where it asks for a lock thread A holds (it then waits for A's release);
+        # a B that never asks for that lock -- a NoLock, a different lock -- is not held back at all
+        from ..absint import BlockedSig
+        mark = len(run.effects)
+        run.memo["@held_by_other"] = set(run.held)
+        try:
             other()
+        except BlockedSig as b:
+            del run.effects[mark:]
+            run.effect("--thread B blocks on the send lock")
+            run.deferred.setdefault(b.key, []).append(other)
+        finally:
+            run.memo["@held_by_other"] = None
 
     for mt in (TRUE,):
         cfg = Config(stubs=stubs, loop_unroll=3, max_paths=200000)
@@ -421,7 +429,8 @@ def r8(ctx):
         def body(run):
             ws = mk_websocket(I, run, enable_multithread=mt)
             run.assume_range(App("len", (Sym("wireA", "bytes"),), "int"), 2, INF)
-            fr = new_obj(run, "_abnf:ABNF", "frameA", get_mask_key=Ext("os.urandom"))
+            fr = new_obj(run, "_abnf:ABNF", "frameA", get_mask_key=Ext("os.urandom"), fin=C(1), opcode=C(2), rsv1=C(0), rsv2=C(0), rsv3=C(0),
+                         mask_value=C(1), data=Sym("payloadA", "bytes"))
             return I.call(run, I.getattr(run, ws, "send_frame", None), [fr], {}, None)
 
         outs = ctx.count_paths(I.explore(body))
